@@ -107,7 +107,8 @@ def _prove_structure(cx, h5file, what):
         cx.prove(False, f"{what}: the file can be opened and walked ({type(e).__name__}: {e})", "layout")
         return
     for rule, problems in P.items():
-        kinds = sorted({pr.split("/")[0] + " " + " ".join(w for w in pr.split()[1:] if not w.startswith("{") and "-" not in w) for pr in problems})
+        import re as _re
+        kinds = sorted({_re.sub(r"\{?[0-9a-f]{8}-[0-9a-f-]{27}\}?", "{..}", pr) for pr in problems})
         cx.prove(not problems, f"{what}: {rule} holds ({len(problems)} problems: {kinds[:2]})", rule)
 
 
